@@ -260,7 +260,7 @@ mod imp {
         targets.extend(65520..=65542);
         for &t in &targets {
             for nelem in [1usize, 2, 3, 7] {
-                for shape in 0..4 {
+                for shape in 0..5 {
                     k += 1;
                     if !ctx.mine(k) {
                         continue;
@@ -288,7 +288,10 @@ mod imp {
                             Val::S(x) => Val::A(Sig::Y, x.bytes().map(Val::Y).collect()),
                             _ => unreachable!(),
                         }).collect()),
-                        _ => Val::Dict(Sig::Q, Sig::S, strs.into_iter().enumerate().map(|(j, s)| (Val::Q(j as u16), s)).collect()),
+                        3 => Val::Dict(Sig::Q, Sig::S, strs.into_iter().enumerate().map(|(j, s)| (Val::Q(j as u16), s)).collect()),
+                        // variable-size keys: every dict entry carries a framing offset for its key, and the entry's own size
+                        // (with that offset) crosses the thresholds
+                        _ => Val::Dict(Sig::S, Sig::S, strs.into_iter().enumerate().map(|(j, s)| (Val::S(format!("k{j}")), s)).collect()),
                     };
                     let note = format!("threshold target={t} n={nelem} shape={shape}");
                     let len = gv::serialize(&val, Endian::Le).len();
